@@ -125,3 +125,13 @@ def reset_global_state() -> None:
 
 
 __all__ = ['Configuration', 'Message', 'Open', 'Notify', 'Negotiated', 'Direction', 'Capabilities']
+
+
+def render_update_json(neighbor, message, negotiated, version: str | None = None, direction: str = 'receive') -> str:
+    """the JSON event the way Processes._update produces it (Update -> .data, EOR as is)"""
+    from exabgp.reactor.api.response import Response
+    from exabgp.version import json as json_version
+
+    collection = message if getattr(message, 'IS_EOR', False) else message.data
+    encoder = Response.JSON(version or json_version)
+    return encoder.update(neighbor, direction, collection, b'', b'', negotiated)
